@@ -152,7 +152,8 @@ def _exec_redirect(ctx, case):
         what = "redirect_tree(after sort=False re-rooting)"
         ctx.count("redirect_chained_checked")
     cols = _cols(cur)
-    out = redirect_tree(cur, case["node"], sort=case["sort"])
+    node_arg = [case["node"], np.int64(case["node"]), np.int32(case["node"])][case["node"] % 3]
+    out = redirect_tree(cur, node_arg, sort=case["sort"])
     ctx.count("redirect_checked")
     _check_redirect(ctx, case, cols, out, case["node"], case["sort"], what)
     for k, a in cols.items():
@@ -194,7 +195,10 @@ def _exec_cat(ctx, case):
     a, b, tr = case["a"], case["b"], case["translate"]
     _place_junction(A, B, a, b, case.get("junction", "asis"), case.get("jseed", 0))
     ca, cb = _cols(A), _cols(B)
-    out = cat_tree(A, B, a, b, translate=tr)
+    if (a + b) % 3 == 0:
+        out = cat_tree(A, B, np.int64(a), np.int32(b), translate=tr)
+    else:
+        out = cat_tree(A, B, a, b, translate=tr)
     ctx.count("cat_checked")
     ctx.count("cat_translate" if tr else "cat_no_translate")
     what = f"cat_tree(a={a}, b={b}, translate={tr})"
